@@ -1249,7 +1249,176 @@ func inModel(t *gty) bool {
 	return notReflectable(t) == "" && structsInModel(t)
 }
 
-var tagForm = regexp.MustCompile(`^puppet:"(name=>'[^',"]*'(, value=>(-?[0-9]+|'[^',"]*'|true|false))?|value=>(-?[0-9]+|'[^',"]*'|true|false))"$`)
+// tagLit: a literal of a `value=>` tag item in the form the driver reads (lean/Driver/C18.lean litP) —
+//	LIT ::= -?DIGITS | -?DIGITS.DIGITS | 'chars' | true | false | undef | [LIT,…] | {'key'=>LIT,…}      (no blanks inside)
+type tagLit struct {
+	kind  string // int flt str bool undef arr hsh
+	i     int64
+	f     float64
+	s     string
+	b     bool
+	elems []tagLit
+	keys  []string
+}
+
+var strLitChars = regexp.MustCompile(`^[^',"\\]*$`)
+
+func parseLit(s string) (l tagLit, rest string, ok bool) {
+	switch {
+	case strings.HasPrefix(s, "'"):
+		j := strings.Index(s[1:], "'")
+		if j < 0 || !strLitChars.MatchString(s[1:1+j]) {
+			return l, s, false
+		}
+		return tagLit{kind: "str", s: s[1 : 1+j]}, s[j+2:], true
+	case strings.HasPrefix(s, "[]"):
+		return tagLit{kind: "arr"}, s[2:], true
+	case strings.HasPrefix(s, "["):
+		l = tagLit{kind: "arr"}
+		s = s[1:]
+		for {
+			e, r, ok := parseLit(s)
+			if !ok {
+				return l, s, false
+			}
+			l.elems = append(l.elems, e)
+			if strings.HasPrefix(r, ",") {
+				s = r[1:]
+				continue
+			}
+			if strings.HasPrefix(r, "]") {
+				return l, r[1:], true
+			}
+			return l, s, false
+		}
+	case strings.HasPrefix(s, "{}"):
+		return tagLit{kind: "hsh"}, s[2:], true
+	case strings.HasPrefix(s, "{"):
+		l = tagLit{kind: "hsh"}
+		s = s[1:]
+		for {
+			k, r, ok := parseLit(s)
+			if !ok || k.kind != "str" || !strings.HasPrefix(r, "=>") {
+				return l, s, false
+			}
+			for _, o := range l.keys {
+				if o == k.s {
+					return l, s, false // a repeated key: not a form the model reads
+				}
+			}
+			v, r2, ok := parseLit(r[2:])
+			if !ok {
+				return l, s, false
+			}
+			l.keys = append(l.keys, k.s)
+			l.elems = append(l.elems, v)
+			if strings.HasPrefix(r2, ",") {
+				s = r2[1:]
+				continue
+			}
+			if strings.HasPrefix(r2, "}") {
+				return l, r2[1:], true
+			}
+			return l, s, false
+		}
+	case strings.HasPrefix(s, "true"):
+		return tagLit{kind: "bool", b: true}, s[4:], true
+	case strings.HasPrefix(s, "false"):
+		return tagLit{kind: "bool"}, s[5:], true
+	case strings.HasPrefix(s, "undef"):
+		return tagLit{kind: "undef"}, s[5:], true
+	}
+	m := numLit.FindStringSubmatch(s)
+	if m == nil {
+		return l, s, false
+	}
+	if m[2] != "" {
+		f, err := strconv.ParseFloat(m[0], 64)
+		if err != nil {
+			return l, s, false
+		}
+		return tagLit{kind: "flt", f: f}, s[len(m[0]):], true
+	}
+	i, err := strconv.ParseInt(m[0], 10, 64)
+	if err != nil {
+		return l, s, false
+	}
+	return tagLit{kind: "int", i: i}, s[len(m[0]):], true
+}
+
+var numLit = regexp.MustCompile(`^-?[0-9]+(\.([0-9]+))?`)
+
+// litFits mirrors the model's `inst (typeOf t) (toVal lit)`: the attribute type derived from the Go type accepts the literal
+func litFits(t *gty, l tagLit) bool {
+	switch t.kind {
+	case "int":
+		b := bits(t.w)
+		return l.kind == "int" && l.i >= int64(-1)<<(b-1) && l.i <= -(int64(-1)<<(b-1)+1)
+	case "uint":
+		b := bits(t.w)
+		return l.kind == "int" && l.i >= 0 && (b == 64 || l.i <= int64(1)<<b-1)
+	case "float":
+		return l.kind == "flt" && l.f == l.f && (t.w == 64 || math.Abs(l.f) <= math.MaxFloat32)
+	case "string":
+		return l.kind == "str"
+	case "bool":
+		return l.kind == "bool"
+	case "slice", "array":
+		if l.kind != "arr" {
+			return false
+		}
+		for _, e := range l.elems {
+			if !litFits(t.elem, e) {
+				return false
+			}
+		}
+		return true
+	case "map":
+		if l.kind != "hsh" || (t.key.kind != "string" && len(l.keys) > 0) {
+			return false
+		}
+		for _, e := range l.elems {
+			if !litFits(t.elem, e) {
+				return false
+			}
+		}
+		return true
+	case "ptr":
+		return l.kind == "undef" || litFits(t.elem, l)
+	}
+	return false
+}
+
+// tagInModel: `puppet:"ITEM, ITEM"` with ITEM ::= name=>'chars' | value=>LIT, each at most once
+func tagInModel(tag string) bool {
+	if !strings.HasPrefix(tag, `puppet:"`) || !strings.HasSuffix(tag, `"`) || len(tag) < 10 {
+		return false
+	}
+	seen := map[string]bool{}
+	for _, item := range strings.Split(tag[8:len(tag)-1], ", ") {
+		var key string
+		switch {
+		case strings.HasPrefix(item, "name=>"):
+			key = "name"
+			l, r, ok := parseLit(item[6:])
+			if !ok || r != "" || l.kind != "str" {
+				return false
+			}
+		case strings.HasPrefix(item, "value=>"):
+			key = "value"
+			if _, r, ok := parseLit(item[7:]); !ok || r != "" {
+				return false
+			}
+		default:
+			return false
+		}
+		if seen[key] {
+			return false
+		}
+		seen[key] = true
+	}
+	return true
+}
 
 func structsInModel(t *gty) bool {
 	if t == nil {
@@ -1265,7 +1434,7 @@ func structsInModel(t *gty) bool {
 		if !structsInModel(f.t) || f.t.kind == "iface" || (f.anon && f.t.kind != "struct") {
 			return false
 		}
-		if f.tag != "" && !tagForm.MatchString(f.tag) {
+		if f.tag != "" && !tagInModel(f.tag) {
 			return false
 		}
 		if v := tagItem(f.tag, "value"); v != "" && !dfltInModel(f.t, v) {
@@ -1309,26 +1478,10 @@ func attrFields(t *gty) []gfield {
 	return t.fields
 }
 
-// dfltInModel: the literal of a `value=>` tag item is an integer / string / boolean that the field's type accepts
+// dfltInModel: the literal of a `value=>` tag item is one the attribute type derived from the field's type accepts
 func dfltInModel(t *gty, lit string) bool {
-	if t.kind == "ptr" {
-		t = t.elem
-	}
-	switch t.kind {
-	case "int":
-		i, err := strconv.ParseInt(lit, 10, 64)
-		b := bits(t.w)
-		return err == nil && i >= int64(-1)<<(b-1) && i <= -(int64(-1)<<(b-1) + 1)
-	case "uint":
-		i, err := strconv.ParseInt(lit, 10, 64)
-		b := bits(t.w)
-		return err == nil && i >= 0 && (b == 64 || i <= int64(1)<<b-1)
-	case "string":
-		return strings.HasPrefix(lit, "'") && strings.HasSuffix(lit, "'") && len(lit) >= 2
-	case "bool":
-		return lit == "true" || lit == "false"
-	}
-	return false
+	l, r, ok := parseLit(lit)
+	return ok && r == "" && litFits(t, l)
 }
 
 // ---- @objreg: declared object types mapped to structs through the implementation registry -------------------------------
@@ -1504,8 +1657,8 @@ func objreg(c px.Context, t *gty, ve sx.Sexp) core.Result {
 		cl := diffClass(t, gv, back)
 		walkStructs(t, gv, func(st *gty, sv reflect.Value) {
 			for i, f := range st.fields {
-				// a nil pointer field is left out by FromReflectedValue, so the attribute takes its declared default
-				if f.t.kind == "ptr" && tagItem(f.tag, "value") != "" && sv.Field(i).IsNil() {
+				// a nil pointer / slice / map field is left out by FromReflectedValue, so the attribute takes its declared default
+				if tagItem(f.tag, "value") != "" && tagItem(f.tag, "value") != "undef" && leftOutNil(sv.Field(i)) {
 					cl = "nil-ptr-takes-declared-default"
 				}
 			}
@@ -1519,6 +1672,22 @@ func objreg(c px.Context, t *gty, ve sx.Sexp) core.Result {
 		return res(out, "FAIL type-rejects-wrapped "+pt.String()+" rejects "+out)
 	}
 	return res(out, "ok")
+}
+
+// leftOutNil: FromReflectedValue (appendAttributeValues) leaves the field out of the hash it constructs from: a nil pointer,
+// slice or map, or a pointer to a nil slice or map
+func leftOutNil(sf reflect.Value) bool {
+	if sf.Kind() == reflect.Ptr {
+		if sf.IsNil() {
+			return true
+		}
+		sf = sf.Elem()
+	}
+	switch sf.Kind() {
+	case reflect.Slice, reflect.Map, reflect.Interface:
+		return sf.IsNil()
+	}
+	return false
 }
 
 func fullHash(attrs []px.Attribute, pos []px.Value) px.OrderedMap {
@@ -1718,33 +1887,108 @@ func genVal(r *rand.Rand, t *gty, mode int, depth int) string {
 	return "(" + strings.Join(xs, " ") + ")"
 }
 
-// tagDefault picks a default that can be declared in a tag for a field of type t: (literal, go-value term); the
-// default differs from the Go zero value.  Only integers, strings, booleans and pointers to them.
+// tagDefault picks a default that can be declared in a tag for a field of type t: (literal, go-value term).
+// Integers, floats (decimals that are exact in binary and some that are not; ±0), strings, booleans, arrays of them
+// (slices and Go arrays, empty too), string-keyed hashes (maps; written in an order that is not the canonical one),
+// pointers to any of these (the pointee's default, or an explicit undef).
 func tagDefault(r *rand.Rand, t *gty) (lit string, term string) {
 	switch t.kind {
-	case "int":
-		c := []string{"8", "42", "-7", "100", "-128"}
+	case "int", "uint", "float", "string", "bool":
+		c := scalarDefaults(t)
 		x := c[r.Intn(len(c))]
-		return x, x
-	case "uint":
-		c := []string{"8", "200", "255"}
-		if bits(t.w) >= 16 {
-			c = append(c, "8080", "65535")
+		return x[0], x[1]
+	case "slice", "array":
+		n := r.Intn(3)
+		if t.kind == "array" {
+			n = t.n
 		}
-		x := c[r.Intn(len(c))]
-		return x, x
-	case "string":
-		c := []string{"none", "x1", "a b"}
-		x := c[r.Intn(len(c))]
-		return "'" + x + "'", sx.Str(x).Atom
-	case "bool":
-		return "true", "t"
+		ls, ts := []string{}, []string{}
+		for i := 0; i < n; i++ {
+			l, tm := tagDefault(r, t.elem)
+			if l == "" {
+				return "", ""
+			}
+			ls, ts = append(ls, l), append(ts, tm)
+		}
+		if n == 0 {
+			if _, tm := tagDefault(r, t.elem); tm == "" {
+				return "", ""
+			}
+		}
+		head := "s"
+		if t.kind == "array" {
+			head = "a"
+		}
+		return "[" + strings.Join(ls, ",") + "]", strings.TrimSpace("("+head+" "+strings.Join(ts, " ")) + ")"
+	case "map":
+		if t.key.kind != "string" {
+			return "", ""
+		}
+		keys := []string{"b", "a", "c"}[:r.Intn(4)]
+		ls, ts := []string{}, map[string]string{}
+		for _, k := range keys {
+			l, tm := tagDefault(r, t.elem)
+			if l == "" {
+				return "", ""
+			}
+			ls = append(ls, "'"+k+"'=>"+l)
+			ts[k] = tm
+		}
+		if len(keys) == 0 {
+			if _, tm := tagDefault(r, t.elem); tm == "" {
+				return "", ""
+			}
+		}
+		sort.Strings(keys)
+		xs := []string{"m"}
+		for _, k := range keys {
+			xs = append(xs, "("+sx.Str(k).Atom+" "+ts[k]+")")
+		}
+		return "{" + strings.Join(ls, ",") + "}", "(" + strings.Join(xs, " ") + ")"
 	case "ptr":
+		if r.Intn(4) == 0 {
+			return "undef", "nil"
+		}
 		if l, tm := tagDefault(r, t.elem); l != "" {
 			return l, "(p " + tm + ")"
 		}
 	}
 	return "", ""
+}
+
+// scalarDefaults: the defaults (literal, go-value term) the generator declares for a scalar field type
+func scalarDefaults(t *gty) [][2]string {
+	out := [][2]string{}
+	switch t.kind {
+	case "int":
+		for _, x := range []string{"8", "42", "-7", "100", "-128", "0"} {
+			out = append(out, [2]string{x, x})
+		}
+	case "uint":
+		c := []string{"8", "200", "255", "0"}
+		if bits(t.w) >= 16 {
+			c = append(c, "8080", "65535")
+		}
+		for _, x := range c {
+			out = append(out, [2]string{x, x})
+		}
+	case "float":
+		c := []string{"1.5", "-0.25", "0.0", "-0.0", "1024.0", "3.0"}
+		if t.w == 64 {
+			c = append(c, "0.1", "-123456.789")
+		}
+		for _, x := range c {
+			f, _ := strconv.ParseFloat(x, 64)
+			out = append(out, [2]string{x, u64(math.Float64bits(f))})
+		}
+	case "string":
+		for _, x := range []string{"none", "x1", "a b", ""} {
+			out = append(out, [2]string{"'" + x + "'", sx.Str(x).Atom})
+		}
+	case "bool":
+		out = append(out, [2]string{"true", "t"}, [2]string{"false", "f"})
+	}
+	return out
 }
 
 func randScalar(r *rand.Rand, t *gty) string {
@@ -1966,6 +2210,28 @@ func gen(g *core.G) {
 		}
 	}
 	emit(&gty{kind: "struct"}, "(st)")
+	// declared defaults: for every scalar type e and every default d the generator knows for it —
+	// struct{A e "value=>d"; B *e "value=>d"; C []e "value=>[d]"; D map[string]e "value=>{'k'=>d}"} with every field at its
+	// default, at the Go zero value / nil, and at another value
+	for _, e := range leafTypes() {
+		zero := genVal(g.Rng, e, 0, 0)
+		other := boundary(e)[len(boundary(e))-1]
+		for _, d := range scalarDefaults(e) {
+			tg := func(l string) string { return "puppet:\"value=>" + l + "\"" }
+			S := &gty{kind: "struct", fields: []gfield{
+				{name: "A", t: e, tag: tg(d[0])},
+				{name: "B", t: &gty{kind: "ptr", elem: e}, tag: tg(d[0])},
+				{name: "C", t: &gty{kind: "slice", elem: e}, tag: tg("[" + d[0] + "]")},
+				{name: "D", t: &gty{kind: "map", key: &gty{kind: "string"}, elem: e}, tag: tg("{'k'=>" + d[0] + "}")}}}
+			emit(S, "(st "+d[1]+" (p "+d[1]+") (s "+d[1]+") (m (x6b "+d[1]+")))")
+			emit(S, "(st "+zero+" nil (s) (m))")
+			emit(S, "(st "+other+" (p "+other+") (s "+other+" "+d[1]+") (m (x6a "+d[1]+") (x6b "+other+")))")
+			emit(S, "(st "+d[1]+" (p "+zero+") (s "+zero+") (m (x6b "+zero+")))")
+		}
+		U := &gty{kind: "struct", fields: []gfield{{name: "A", t: &gty{kind: "ptr", elem: e}, tag: "puppet:\"value=>undef\""}, {name: "B", t: e}}}
+		emit(U, "(st nil "+zero+")")
+		emit(U, "(st (p "+other+") "+other+")")
+	}
 	// embedding outside the model (implementation only): a field that shadows a field of the embedded parent; an embedded
 	// pointer to a struct in the first position
 	{
@@ -2003,8 +2269,19 @@ func gen(g *core.G) {
 			f := gfield{name: string(rune('A' + j)), t: randType(g.Rng, g.Rng.Intn(depth), j == 1)}
 			if i%2 == 1 && g.Rng.Intn(2) == 0 {
 				// every other struct: fields whose type can carry a declared default
-				ls := []*gty{{kind: "int", w: widths[g.Rng.Intn(5)]}, {kind: "uint", w: widths[g.Rng.Intn(5)]}, {kind: "string"}, {kind: "bool"}}
+				ls := []*gty{{kind: "int", w: widths[g.Rng.Intn(5)]}, {kind: "uint", w: widths[g.Rng.Intn(5)]}, {kind: "string"}, {kind: "bool"},
+					{kind: "float", w: 32 + 32*g.Rng.Intn(2)}}
 				f.t = ls[g.Rng.Intn(len(ls))]
+				switch g.Rng.Intn(8) {
+				case 0:
+					f.t = &gty{kind: "slice", elem: f.t}
+				case 1:
+					f.t = &gty{kind: "map", key: &gty{kind: "string"}, elem: f.t}
+				case 2:
+					f.t = &gty{kind: "array", n: 1 + g.Rng.Intn(2), elem: f.t}
+				case 3:
+					f.t = &gty{kind: "slice", elem: &gty{kind: "slice", elem: f.t}}
+				}
 				if g.Rng.Intn(3) == 0 {
 					f.t = &gty{kind: "ptr", elem: f.t}
 				}
